@@ -217,9 +217,11 @@ struct CrashCase {
 }
 
 /// cut points and variants for one recorded log
-fn enumerate(initial: &[u8], log: &[Ev], steps: &[StepRecord], rng: &mut Rng, thorough: bool, budget: usize) -> Vec<CrashCase> {
+/// `sink` receives the cases in chunks, so that only a few images exist at any time
+fn enumerate(initial: &[u8], log: &[Ev], steps: &[StepRecord], rng: &mut Rng, thorough: bool, budget: usize, sink: &mut dyn FnMut(Vec<CrashCase>)) -> usize {
     // positions of sync events
     let mut cases = vec![];
+    let mut emitted = 0usize;
     let mut durable = initial.to_vec();
     let mut last_sync = 0usize; // log index after the last sync
     // choose cut points: all boundaries inside commit-bearing steps when small, sampled otherwise
@@ -236,7 +238,10 @@ fn enumerate(initial: &[u8], log: &[Ev], steps: &[StepRecord], rng: &mut Rng, th
                 last_sync = k;
             }
         }
-        let take = k >= next_cut || (k > 0 && matches!(log[k - 1], Ev::Sync)) || (k < total && matches!(log[k], Ev::Sync));
+        // always cut around syncs and around every change of the file length (a truncation or
+        // extension that becomes durable before / without the writes around it)
+        let near_setlen = (k > 0 && matches!(log[k - 1], Ev::SetLen(_))) || (k < total && matches!(log[k], Ev::SetLen(_))) || (k > 1 && matches!(log[k - 2], Ev::SetLen(_)));
+        let take = k >= next_cut || near_setlen || (k > 0 && matches!(log[k - 1], Ev::Sync)) || (k < total && matches!(log[k], Ev::Sync));
         if !take {
             continue;
         }
@@ -249,9 +254,17 @@ fn enumerate(initial: &[u8], log: &[Ev], steps: &[StepRecord], rng: &mut Rng, th
         for (name, ch) in choices(&pending, rng, thorough) {
             let image = build_image(&durable, &pending, &ch);
             cases.push(CrashCase { desc: format!("cut={k}/{total} step=[{}] pending={} variant={name}", step.desc, pending.len()), image, allowed: step.allowed.clone() });
+            if cases.len() >= 64 {
+                emitted += cases.len();
+                sink(std::mem::take(&mut cases));
+            }
         }
     }
-    cases
+    emitted += cases.len();
+    if !cases.is_empty() {
+        sink(cases);
+    }
+    emitted
 }
 
 fn run_cases(cases: Vec<CrashCase>, cfg: &Cfg, out: &mut Out, generation: u32, second: &mut Vec<(Vec<u8>, Vec<Ev>, Allowed, String)>, keep_logs: usize) {
@@ -319,6 +332,29 @@ pub fn run(args: &Args) {
         let mut steps = gen_history(&mut r, "c01", false, page);
         steps.retain(|s| !matches!(s, Step::CrashReopen));
         steps.truncate(if args.thorough { 30 } else { 14 });
+        // a tail in which the file shrinks: bulk data committed with two-phase / quick-repair
+        // commits, most of it removed, then a clean close (whose final commit trims the file) -
+        // the crash points inside a shrinking commit and inside the close are what growth-only
+        // histories never reach
+        if case_index % 2 == 1 || args.thorough {
+            use crate::history::{End, Op, TxnSpec};
+            let mk = |r: &mut Rng, ops: Vec<Op>, strong: bool| Step::Txn(TxnSpec {
+                durability: redb::Durability::Immediate,
+                two_phase: strong,
+                quick_repair: strong && r.chance(1, 2),
+                sp_ops: vec![],
+                ops,
+                end: End::Commit,
+            });
+            let n = r.range(100, 220);
+            let ops = vec![Op::Bulk(0, 1000, n, page / 2)];
+            steps.push(mk(&mut r, ops, true));
+            let strong = r.chance(2, 3);
+            steps.push(mk(&mut r, vec![Op::BulkRemove(0, 1000, 400)], strong));
+            let strong = r.chance(2, 3);
+            steps.push(mk(&mut r, vec![], strong));
+            steps.push(Step::Reopen);
+        }
         out.begin_case(&format!("crash history page={page} region={} cache={} steps={}", cfg.region, cfg.cache, steps.len()));
         // run the history with recording on (after creation: the property quantifies over
         // histories that follow a completed Database creation)
@@ -383,20 +419,22 @@ pub fn run(args: &Args) {
         }
         if ok {
             let budget = if args.thorough { 600 } else { 90 };
-            let cases = enumerate(&initial, &full_log, &records, &mut r, args.thorough, budget);
-            out.line(&format!("crash history events={} cut-cases={}", full_log.len(), cases.len()));
             let mut second: Vec<(Vec<u8>, Vec<Ev>, Allowed, String)> = vec![];
-            run_cases(cases, &cfg, &mut out, 1, &mut second, if args.thorough { 40 } else { 8 });
+            let keep = if args.thorough { 40 } else { 8 };
+            let n1 = {
+                let mut sink = |chunk: Vec<CrashCase>| run_cases(chunk, &cfg, &mut out, 1, &mut second, keep);
+                enumerate(&initial, &full_log, &records, &mut r, args.thorough, budget, &mut sink)
+            };
+            out.line(&format!("crash history events={} cut-cases={n1}", full_log.len()));
             // second generation: crash during the recovery run of a surviving image
-            let mut cases2 = vec![];
+            let mut n2 = 0;
             for (img, log, allowed, desc) in second {
                 let rec = vec![StepRecord { desc: format!("recovery of <{}>", desc.chars().take(80).collect::<String>()), from: 0, to: log.len(), allowed }];
-                let mut c = enumerate(&img, &log, &rec, &mut r, false, 25);
-                cases2.append(&mut c);
+                let mut none = vec![];
+                let mut sink = |chunk: Vec<CrashCase>| run_cases(chunk, &cfg, &mut out, 2, &mut none, 0);
+                n2 += enumerate(&img, &log, &rec, &mut r, false, 25, &mut sink);
             }
-            out.line(&format!("crash second-generation cases={}", cases2.len()));
-            let mut none = vec![];
-            run_cases(cases2, &cfg, &mut out, 2, &mut none, 0);
+            out.line(&format!("crash second-generation cases={n2}"));
         }
         out.end_case(ok);
         out.count("histories");
